@@ -112,7 +112,38 @@ def moved_parameters(dic, cmd):
     return ids
 
 
-def evaluate(dic, cmd, cfg, emitted):
+def constrained_left(j, out=None):
+    """Parameter dicts that still carry a (non-fixed) constraint annotation after the builder ran: these would be
+    handed to the sampler on their constrained scale"""
+    out = [] if out is None else out
+    if isinstance(j, list):
+        for x in j:
+            constrained_left(x, out)
+    elif isinstance(j, dict):
+        if j.get("type") == "Parameter" and ("@lower" in j or "@upper" in j or j.get("@simplex")):
+            fixed = "@lower" in j and "@upper" in j and j["@lower"] == j["@upper"]
+            only_upper = "@upper" in j and "@lower" not in j
+            if not fixed and not only_upper:
+                out.append(j.get("id"))
+        for v in j.values():
+            constrained_left(v, out)
+    return out
+
+
+def fixed_ids(j, out=None):
+    out = [] if out is None else out
+    if isinstance(j, list):
+        for x in j:
+            fixed_ids(x, out)
+    elif isinstance(j, dict):
+        if "@lower" in j and "@upper" in j and j["@lower"] == j["@upper"] and isinstance(j.get("id"), str):
+            out.append(j["id"])
+        for v in j.values():
+            fixed_ids(v, out)
+    return out
+
+
+def evaluate(dic, cmd, cfg, emitted, with_constraints=None):
     """-> list of (signature, what) failures of the property on this loaded configuration"""
     import torch
 
@@ -189,6 +220,18 @@ def evaluate(dic, cmd, cfg, emitted):
             fails.append(("eval:jacobian-identity",
                           f"joint.jacobian - joint = {lhs!r} but the log-Jacobians independently summed once each give {rhs!r}; "
                           f"listed: {names(listed)}; needed: {names(need)}"))
+    # ---- every annotated parameter was rewritten; what the sampler moves is unconstrained, never a fixed parameter
+    if with_constraints is not None and (cmd != "advi" or cfg.get("distribution", "Normal") == "Normal"):
+        for i in constrained_left(with_constraints):
+            fails.append((f"eval:constrained-parameter-left:{i}",
+                          f"`{i}` still carries a constraint annotation after the builder: it is not rewritten into a transformed parameter"))
+        fx = set(fixed_ids(with_constraints))
+        for i in moved:
+            if i in fx:
+                fails.append((f"eval:fixed-parameter-sampled:{i}", f"`{i}` is fixed (lower == upper) but handed to the sampler"))
+            o = dic.get(i)
+            if o is not None and type(o).__name__ != "Parameter":
+                fails.append((f"eval:moved-not-a-plain-parameter:{i}", f"the sampler moves `{i}`, a {type(o).__name__}"))
     # ---- requested initial values
     fails += check_init(dic, cfg)
     return fails
@@ -222,11 +265,13 @@ def emitted_moved_ids(emitted, cmd):
     return [i for i in dict.fromkeys(ids) if isinstance(i, str)]
 
 
-def close(a, b, tol=2e-5):
+def close(a, b, tol=1e-6):
     return math.isclose(a, b, rel_tol=tol, abs_tol=tol)
 
 
 def check_init(dic, cfg):
+    import torch
+
     fails = []
     init = cfg.get("init")
 
@@ -234,28 +279,38 @@ def check_init(dic, cfg):
         o = dic.get(i)
         return None if o is None else o.tensor.detach().reshape(-1).tolist()
 
-    if init == "rate_init" and cfg.get("clock") == "strict":
+    if init in ("rate_init", "rate_init_tiny") and cfg.get("clock") == "strict":
+        want = 0.002 if init == "rate_init" else 1e-07
         v = val("branchmodel.rate")
-        if v is None or not all(close(x, 0.002) for x in v):
-            fails.append(("eval:init:rate_init", f"--rate_init 0.002 but branchmodel.rate = {v}"))
+        if v is None or not all(close(x, want) for x in v):
+            fails.append(("eval:init:rate_init", f"--rate_init {want} but branchmodel.rate = {v}"))
     elif init == "rate_fixed":
         v = val("branchmodel.rate")
         if v is None or not all(close(x, 0.003) for x in v):
             fails.append(("eval:init:rate", f"--rate 0.003 but branchmodel.rate = {v}"))
-    elif init == "root_height_init":
+    elif init in ("root_height_init", "root_height_init_low"):
+        want = 7.5 if init == "root_height_init" else 4.0001
         t = dic.get("tree")
         if t is not None:
-            h = float(t.node_heights.detach().reshape(-1)[-1])
-            if not close(h, 7.5):
-                fails.append(("eval:init:root_height_init", f"--root_height_init 7.5 but the root height is {h}"))
-    elif init == "brlens_init":
+            hs = t.node_heights.detach().reshape(-1)
+            h = float(hs[-1])
+            if not close(h, want):
+                fails.append(("eval:init:root_height_init", f"--root_height_init {want} but the root height is {h!r}"))
+            # every node must sit at or above its children (tips included): a valid time tree at the initial point
+            bl = t.branch_lengths().detach().reshape(-1)
+            if bool((bl < 0).any()) or not bool(torch.isfinite(hs).all()):
+                fails.append(("eval:init:invalid-tree", f"--root_height_init {want}: node heights {hs.tolist()} give negative or "
+                              f"non-finite branch lengths {bl.tolist()}"))
+    elif init in ("brlens_init", "brlens_init_tiny"):
+        want = 0.05 if init == "brlens_init" else 1e-08
         v = val("tree.blens")
-        if v is None or not all(close(x, 0.05) for x in v):
-            fails.append(("eval:init:brlens_init", f"--brlens_init 0.05 but tree.blens = {v}"))
-    elif init == "coalescent_init":
+        if v is None or not all(close(x, want) for x in v):
+            fails.append(("eval:init:brlens_init", f"--brlens_init {want} but tree.blens = {v}"))
+    elif init in ("coalescent_init", "coalescent_init_tiny"):
+        want = 3.0 if init == "coalescent_init" else 1e-05
         v = val("coalescent.theta")
-        if v is None or not all(close(x, 3.0) for x in v):
-            fails.append(("eval:init:coalescent_init", f"--coalescent_init 3.0 but coalescent.theta = {v}"))
+        if v is None or not all(close(x, want) for x in v):
+            fails.append(("eval:init:coalescent_init", f"--coalescent_init {want} but coalescent.theta = {v}"))
     elif init in ("heights_init_tree", "keep") and cfg.get("clock"):
         t = dic.get("tree")
         if t is not None:
@@ -295,7 +350,7 @@ def _run_config(C, cfg, data):
         return "load-fails", [("load:" + e.signature(), f"the emitted file is rejected by torchtree: {e.exc}: {(e.logged[0] if e.logged else e.msg)[:160]}")], recs, None
     try:
         with contextlib.redirect_stdout(io.StringIO()), contextlib.redirect_stderr(io.StringIO()):
-            fails = evaluate(dic, cfg["cmd"], cfg, emitted)
+            fails = evaluate(dic, cfg["cmd"], cfg, emitted, with_constraints)
     except Exception as e:  # noqa: BLE001
         tb = traceback.extract_tb(e.__traceback__)[-1]
         fails = [(f"eval:harness:{type(e).__name__}:{tb.name}", f"evaluation raised {type(e).__name__}: {str(e)[:160]}")]
@@ -419,6 +474,8 @@ def configs(ck):
             seen.add(k)
             out.append((c, src))
 
+    for c in S.core_lite():
+        add(c, "core-lite")
     for c in S.pairwise(ck.rng):
         add(c, "pairwise")
     if ck.thorough():
